@@ -20,10 +20,28 @@ ORDER = {"NoCheck": [], "CheckFirst": ["grad", "jac"], "CheckSecond": ["hess"], 
 class WrongDeriv(Problem):
     """f = x1^2 + x1 x2 + 2 x2^2 + x1;  c1 = x1 + 2 x2 + x1^2/2 - 1;  c2 = x1 x2 - x2   (both = 0)"""
 
-    def __init__(self, errs, fmt):
+    def __init__(self, errs, fmt, dup=False):
         self.errs = errs
         self.fmt = fmt
+        self.dup = dup      # valid scipy matrices may hold duplicate (unsummed) entries, e.g. after element-wise assembly
+
         super().__init__(np.full(2, -5.0), np.full(2, 5.0), num_cons=2)
+
+    def _mat(self, M):
+        if not self.dup or self.fmt == "coo":
+            return sps.coo_matrix(M).asformat(self.fmt)
+        # each entry split into two stored entries 0.25 v + 0.75 v (exact in binary), duplicates NOT summed
+        r, c = np.nonzero(M)
+        rows = np.concatenate([r, r])
+        cols = np.concatenate([c, c])
+        data = np.concatenate([0.25 * M[r, c], 0.75 * M[r, c]])
+        if self.fmt == "csr":
+            order = np.lexsort((cols, rows))
+            indptr = np.concatenate([[0], np.cumsum(np.bincount(rows, minlength=M.shape[0]))])
+            return sps.csr_matrix((data[order], cols[order], indptr), shape=M.shape)
+        order = np.lexsort((rows, cols))
+        indptr = np.concatenate([[0], np.cumsum(np.bincount(cols, minlength=M.shape[1]))])
+        return sps.csc_matrix((data[order], rows[order], indptr), shape=M.shape)
 
     def _delta(self, which, shape):
         E = np.zeros(shape)
@@ -43,14 +61,14 @@ class WrongDeriv(Problem):
 
     def cons_jac(self, x):
         J = np.array([[1 + x[0], 2.0], [x[1], x[0] - 1]]) + self._delta("jac", (2, 2))
-        return sps.coo_matrix(J).asformat(self.fmt)
+        return self._mat(J)
 
     def lag_hess(self, x, y):
         H = np.array([[2.0 + y[0], 1.0 + y[1]], [1.0 + y[1], 4.0]]) + self._delta("hess", (2, 2))
-        return sps.coo_matrix(H).asformat(self.fmt)
+        return self._mat(H)
 
 
-def observe(flags, errs, fmt):
+def observe(flags, errs, fmt, dup=False):
     calls = []
     orig = dc_mod.deriv_check
 
@@ -60,7 +78,7 @@ def observe(flags, errs, fmt):
 
     dc_mod.deriv_check = counting
     try:
-        prob = WrongDeriv(errs, fmt)
+        prob = WrongDeriv(errs, fmt, dup)
         params = Params(deriv_check=FLAGS[flags], iteration_limit=0, display_interval=1e9)
         try:
             Solver(prob, params).solve(np.array([0.5, -0.25]), np.array([1.0, -2.0]))
@@ -104,7 +122,7 @@ def main():
             if not chk.thorough and k % 4:
                 continue
             errs = [dict(e) for e in sorted(st["cs"]["errs"], key=lambda e: (e["which"], e["i"], e["j"]))] if st["cs"]["errs"] else []
-            obs = observe(st["cs"]["flags"], errs, fmts[k % 3])
+            obs = observe(st["cs"]["flags"], errs, fmts[k % 3], dup=(k % 8 < 4))
             chk.case((st["cs"]["flags"], tuple((e["which"], e["i"], e["j"], e["mag"]) for e in errs)))
             exp = {"kind": v["kind"]}
             if v["kind"] == "error":
